@@ -30,9 +30,9 @@ def Thread.render (i : Nat) (t : Thread) : String :=
     | .terminated => "T"
   let st := st ++ (if t.token then "u" else "") ++ (if t.parked then "p" else "")
   let op := match t.operation with
-    | some o => s!"{o.obj}:{o.action.render}"
+    | some o => s!"{o.obj}:{o.action.render}" ++ (if o.blocking then "!" else "")
     | none => "-"
-  s!"t{i} st={st} c={t.causality.render} r={t.released.render} d={t.dporVV.render} " ++
+  s!"t{i} st={st} c={t.causality.render} r={t.released.render} d={t.dporVV.render} uc={t.unparkCaus.render} " ++
   s!"ly={optNat t.lastYield} yc={t.yieldCount} op={op} crit=0"
 
 def Threads.render (s : Threads) : String :=
